@@ -25,7 +25,8 @@ type State struct {
 	trace   []string
 	dead    bool
 	unsupp  []string // unsupported constructs met on this path
-	ops     int      // straight-line backend operations since last context check (C09)
+	pcSet   map[string]bool
+	ops     int // straight-line backend operations since last context check (C09)
 }
 
 func NewState() *State {
@@ -42,6 +43,10 @@ func (s *State) Clone() *State {
 		trace:   append([]string(nil), s.trace...),
 		unsupp:  append([]string(nil), s.unsupp...),
 		ops:     s.ops,
+		pcSet:   make(map[string]bool, len(s.pcSet)),
+	}
+	for k := range s.pcSet {
+		n.pcSet[k] = true
 	}
 	for k, v := range s.cells {
 		n.cells[k] = v
@@ -62,6 +67,10 @@ func (s *State) Assume(t *Term) {
 	if t.S == "true" {
 		return
 	}
+	if s.pcSet == nil {
+		s.pcSet = map[string]bool{}
+	}
+	s.pcSet[t.S] = true
 	if t.S == "false" {
 		s.dead = true
 	}
@@ -353,6 +362,9 @@ func (ex *Exec) heapArr(st *State, key, valSort string) *Term {
 
 func (ex *Exec) havocHeap(st *State) {
 	for k, a := range st.heap {
+		if ex.immutableKeys[k] {
+			continue
+		}
 		st.heap[k] = ex.declare("H!"+k, a.Sort)
 	}
 	// entries not yet touched start from H0!, which must not be confused with
@@ -372,6 +384,9 @@ func (ex *Exec) havocHeap(st *State) {
 func (ex *Exec) heapArrE(st *State, key, valSort string) *Term {
 	if a, ok := st.heap[key]; ok {
 		return a
+	}
+	if ex.immutableKeys[key] {
+		return ex.heapArr(st, key, valSort)
 	}
 	if ep, ok := st.heap["!epoch"]; ok {
 		a := ex.declare("H!"+key+"!e"+ep.S, "(Array Int "+valSort+")")
